@@ -176,11 +176,11 @@ macro_rules
     all_goals (try simp only [setCaller, setNotifier, setSend, setHandler, setCloser, setPending,
       setTask, log, newSend, failedSend, abandon, returnCaller] at *)))
 
-theorem reachable_induct {P : St → Prop} (h0 : P init)
+theorem reachable_induct {P : St → Prop} (h0 : ∀ f p, P (initSz f p))
     (hstep : ∀ s s' a, Reachable s → P s → step s a = some s' → P s') : ∀ s, Reachable s → P s := by
   intro s hr
   induction hr with
-  | init => exact h0
+  | init f p => exact h0 f p
   | step s s' a hr hs ih => exact hstep s s' a hr ih hs
 
 end FmpRpc.T
